@@ -94,6 +94,11 @@ def make_gev(rng, tier, idx):
     kind = str(rng.choice(['full', 'full', 'rank1', 'low']))
     Px = rand_psd(rng, lead, D, kind, scale)
     Pn = rand_hpd(rng, lead, D, scale=scale * 10.0 ** rng.uniform(-1, 1))
+    if _GV[0] % 7 == 3:
+        # a real symmetric target PSD handed over as a REAL (float64) array next to a complex noise PSD
+        a_ = rng.normal(size=(*lead, D, D + 1))
+        Px = (a_ @ np.swapaxes(a_, -1, -2)) * scale
+        kind = 'real-typed'
     use_eig = bool(rng.random() < 0.4)
     rp = {'layout': str(rng.choice(['C', 'C', 'F', 'Fw'])), 'fn': 'gev', 'Px': Px, 'Pn': Pn, 'use_eig': use_eig, 'kind': kind, 'probe_seed': int(rng.integers(1 << 30)),
           'kw_default': bool(rng.random() < 0.2) and not use_eig}
